@@ -175,6 +175,20 @@ def mu_lemmas(tags=None):
             Group(name="mu.lock_types_real_tables", srcs=S, entry="h_lock_types", no_dfcc=True, kind="lemma", defines=MU_DEF, tags=tags, min_obligations=5)]
 
 
+def mu_scan_groups(tags=None, tier="quick"):
+    """C06/C02, queue content: the real nsync_mu_unlock_slow_ on the real dll.c with N concrete queued waiters of every kind."""
+    S = ["harness/mu/mu_scan.c"] + RG + ["repo:internal/dll.c", "repo:internal/common.c"]
+    gs = []
+    for n in ((1, 2, 3) if tier == "thorough" else (1, 2)):
+        gs.append(Group(name=f"mu.scan.N{n}", srcs=S, entry="h_scan", no_dfcc=True, kind="bounded",
+                        bound=f"exactly {n} waiters on the mutex queue, each a writer or a reader with no condition, a false condition or a true condition (all {6 ** n} "
+                              "combinations, enqueued through the real same_condition merging), the caller holding the mutex as writer or as last reader, three variants of "
+                              "the hint bits, no interference during the call",
+                        timeout=1800, unwind=12, defines=["VP_SEQUENTIAL", "VP_RG_MU", "VP_REAL_SEM", f"VP_N={n}"], object_bits=10, tags=tags, min_obligations=100, mem_gb=24,
+                        functions=["nsync_mu_unlock_slow_", "skip_past_same_condition", "nsync_remove_from_mu_queue_", "nsync_maybe_merge_conditions_"]))
+    return gs
+
+
 def condq_scripts(K, S):
     """every maximal valid sequence of at most S queue operations with at most K enqueues (operation codes only; the records the removals
     apply to, first/last for the enqueues and the conditions stay nondeterministic in the harness)"""
@@ -608,11 +622,13 @@ def note_conc_groups(tags=None, tier="quick"):
         for shape in shapes:
             for tf in ((0, 1) if ak != 2 else (0,)):
                 for site in range(0, nsites):
-                    gs.append(Group(name=f"note.conc.{nm}.s{shape}t{tf}p{site}", srcs=S, entry="h_conc", no_dfcc=True, kind="bounded", timeout=900, unwind=8,
-                                    defines=["VP_SEQUENTIAL", "VP_REAL_SEM", f"VP_AKIND={ak}", f"VP_SHAPE={shape}", f"VP_TF={tf}", f"VP_SITE={site}"], object_bits=10, tags=tags,
+                    gs.append(Group(name=f"note.conc.{nm}.s{shape}t{tf}p{site}", srcs=S, entry="h_conc", no_dfcc=True, kind="bounded", timeout=900, unwind=(14 if tier == "thorough" else 8),
+                                    defines=["VP_SEQUENTIAL", "VP_REAL_SEM", f"VP_AKIND={ak}", f"VP_SHAPE={shape}", f"VP_TF={tf}", f"VP_SITE={site}"] +
+                                            ([f"VP_SITE2_MAX={nsites - 1}"] if tier == "thorough" else []), object_bits=12, tags=tags,
                                     bound=f"family {'grandparent -> ' if shape & 1 else ''}P -> n{' -> child' if shape & 2 else ''} built by the real nsync_note_new; thread A runs "
                                           f"{acall} on the real note.c + dll.c, its first trylock {'fails' if tf else 'succeeds'}; at A's mutex operation number {site} "
-                                          f"other threads run one or two complete real calls out of {menu} (all ordered pairs); environment calls that would block are "
+                                          f"other threads run one or two complete real calls out of {menu} (all ordered pairs" +
+                                          (", the second one at this or at any later mutex operation of A" if tier == "thorough" else "") + "); environment calls that would block are "
                                           "not enabled; clock frozen",
                                     min_obligations=50, cbmc_args=["--no-malloc-may-fail"],
                                     functions=["notify", "note_notify_child", "nsync_note_notify", "nsync_note_free", "nsync_note_new", "nsync_note_notified_deadline_"]))
